@@ -310,7 +310,9 @@ func (m *ReconcilePod) podDelete(ctx context.Context, namespacedName client.Obje
 	}
 	if haveFixedIP {
 		// for fixed ip , update podENI status to v1beta1.ENIPhaseDetaching
-		if prePodENI.Status.Phase == v1beta1.ENIPhaseDetaching {
+		if prePodENI.Status.Phase == v1beta1.ENIPhaseDetaching ||
+			prePodENI.Status.Phase == v1beta1.ENIPhaseUnbind {
+			// already detaching, or nothing is attached any more
 			return reconcile.Result{}, nil
 		}
 		prePodENICopy := prePodENI.DeepCopy()
